@@ -169,6 +169,21 @@ class Service(object):
     def reset(self):
         self.restore(self.pristine)
 
+    @property
+    def alembic(self):
+        """Snapshot of a database whose schema was created by the alembic
+        migrations (as `placement-manage db sync` or sync_on_startup do):
+        at head, nothing synchronised yet."""
+        if getattr(self, '_alembic', None) is None:
+            from placement.db.sqlalchemy import migration
+            keep = self.snapshot()
+            self.restore(b'')
+            migration.upgrade('head')
+            self.engine.dispose()
+            self._alembic = self.snapshot()
+            self.restore(keep)
+        return self._alembic
+
     # -- requests --------------------------------------------------------------
     def request(self, method, path, version=None, body=None, raw_body=None,
                 headers=None, token='admin', roles=None, app=None,
